@@ -1,6 +1,7 @@
 import BronVerif.Drive.Common
 import BronVerif.Model.Curves
 import BronVerif.Model.Commit
+import BronVerif.Model.Hash.Blake2b
 /-!
 Driver handlers for C18 (commitments).
 
@@ -315,12 +316,11 @@ def handleKey (op : String) (args : List String) (rhs : String) : Verdict :=
 
 /-! ### hash commitments -/
 
-/-- The keyed hash of `hashcom` (`blake2b.New256(key)`): `none` until the BLAKE2b model
-(`BronVerif.Hash.blake2b key msg 32`) is merged; then
-`some fun k x => (Hash.blake2b k x 32)`.  With `none` the handlers decide what follows from
-injectivity of the hash alone (`hashOpenPredict`) and leave the digest itself to the Go-side oracle
-(independent recomputation with x/crypto in the harness). -/
-def keyedHash? : Option (List UInt8 → List UInt8 → List UInt8) := none
+/-- The keyed hash of `hashcom` (`blake2b.New256(key)`): the BLAKE2b model with a 32-byte output.
+`some`: commitments are recomputed exactly, `commitment = BLAKE2b_key(m ‖ w)`.  (With `none` the
+handlers fall back to what follows from injectivity of the hash alone, `hashOpenPredict`.) -/
+def keyedHash? : Option (List UInt8 → List UInt8 → List UInt8) :=
+  some fun k x => (Hash.blake2b ⟨k.toArray⟩ ⟨x.toArray⟩ 32).toList
 
 def bytes? (s : String) : Option (List UInt8) := (hexToBytes? s).map (·.toList)
 
@@ -343,7 +343,14 @@ def handleHash (op : String) (args : List String) (rhs : String) : Verdict :=
       else match keyedHash? with
         | some H =>
           if hashCommit H k0 m0 w0 ≠ c0 then .bad "hashcom-digest" "c0 ≠ BLAKE2b_k0(m0 ‖ w0)"
-          else spec "hashcom-open" (acc (hashOpen H k c m w)) rhs
+          else
+            let exact := hashOpen H k c m w
+            match hashOpenPredict k0 m0 w0 c0 k c m w with
+            | some b =>
+              -- a disagreement would be a collision of the keyed hash on inputs that occur
+              if b ≠ exact then .unsupported "hash model: collision on occurring inputs (HashInj fails)"
+              else spec "hashcom-open" (acc exact) rhs
+            | none => spec "hashcom-open" (acc exact) rhs
         | none =>
           match hashOpenPredict k0 m0 w0 c0 k c m w with
           | some b => spec "hashcom-open" (acc b) rhs
